@@ -497,6 +497,31 @@ static ares_bool_t ai_has_ipv4(struct ares_addrinfo *ai)
   return ARES_FALSE;
 }
 
+/* An answer to an A question may carry AAAA records (and vice versa), only
+ * keep addresses of the family the caller asked for. */
+static void hquery_filter_family(struct host_query *hquery)
+{
+  struct ares_addrinfo_node **prev;
+  int                         family = hquery->hints.ai_family;
+
+  if (family != AF_INET && family != AF_INET6) {
+    return;
+  }
+
+  prev = &hquery->ai->nodes;
+  while (*prev != NULL) {
+    struct ares_addrinfo_node *node = *prev;
+
+    if (node->ai_family != family) {
+      *prev         = node->ai_next;
+      node->ai_next = NULL;
+      ares_freeaddrinfo_nodes(node);
+      continue;
+    }
+    prev = &node->ai_next;
+  }
+}
+
 static void host_callback(void *arg, ares_status_t status, size_t timeouts,
                           const ares_dns_record_t *dnsrec)
 {
@@ -511,6 +536,9 @@ static void host_callback(void *arg, ares_status_t status, size_t timeouts,
     } else {
       addinfostatus =
         ares_parse_into_addrinfo(dnsrec, ARES_TRUE, hquery->port, hquery->ai);
+      if (addinfostatus == ARES_SUCCESS) {
+        hquery_filter_family(hquery);
+      }
     }
 
     /* We sent out ipv4 and ipv6 requests simultaneously.  If we got a
